@@ -20,14 +20,19 @@ UNIT = Unit(
     describe="mono::mono_expr, generic-callee path of the ECall arm (fragment): when a call to a generic function is rewritten to a "
              "specialised name, that name is the instance of the callee at a substitution under which the callee's result type and "
              "parameter types are EXACTLY the call's result and argument types — so two calls that differ in any of these can never "
-             "share an instance; arguments and call type are passed on unchanged",
+             "share an instance; arguments and call type are passed on unchanged. EVar arm (fragment mono_var): a generic function or generic inherent method used "
+             "as a VALUE is specialised the same way — the use names the instance at a substitution under which the function's signature is the use "
+             "type, and the unspecialised name survives only where no instance can be determined",
     trusted=["FRAGMENT: mono_expr before `let generic_func_name = callee.name.clone();` (translation of func/args, callee lookup, "
              "non-generic shortcut) and all other arms are dropped; live variables become parameters",
              "PARTIAL: the two `panic!`s (unification failure) are not claimed unreachable — reaching them is a crash (C04), not a wrong "
              "instance; they are marked with assume(false) and listed",
              "Ctx::ensure_instance is a stub returning inst_name(name, subst) (uninterpreted: injectivity of spec_name_for/ty_compact is "
              "NOT claimed); Ctx's maps other than the substitution are opaque (AnyMap)",
-             "mono::unify appears with the contract U-MUNIFY proves (contract-only stub)"],
+             "mono::unify appears with the contract U-MUNIFY proves (contract-only stub)",
+             "FRAGMENT mono_var (the EVar arm of mono_expr): lookup_callee is a stub (uninterpreted callee_of); subst_ty is opaque here (U-MSUBST); "
+             "unify is ASSUMED deterministic there (stub unify_det: the clauses U-MUNIFY proves, plus `succeeds` / `result` as uninterpreted functions of "
+             "its arguments) so that 'the bare name survives only where unification fails or leaves a type parameter' can be stated"],
     items=[
         Adt(file="crates/compiler/src/tast.rs", kw="enum", name="Ty", rules=["attrs"]),
         Adt(file="crates/compiler/src/tast.rs", kw="struct", name="TastIdent", rules=["attrs"]),
@@ -61,8 +66,30 @@ UNIT = Unit(
            loop_fn=lambda k, header, kw: ("invariant __i0 <= f.params@.len(), !__r0 ==> forall|j: int| 0 <= j < __i0 ==> !mentions_tparam((#[trigger] f.params@[j]).1),\n"
                                           "  __r0 ==> exists|j: int| 0 <= j < f.params@.len() && mentions_tparam((#[trigger] f.params@[j]).1),\ndecreases f.params@.len() - __i0,")),
         unify_stub,
+        Fn(file=M, name="mono_expr", rename="mono_var", ret="r", attrs="#[verifier::loop_isolation(false)]",
+           rules=["attrs", "fmtmsg", ("strip", "core::"), ("strip", "common_defs::"), ("strip", "tast::"), "iter_map_collect", "let_chain_rev", "let_chain"],
+           cut_from=re.compile(r"core::Expr::EVar \{ name, ty \} => "), cut_inside=True, cut_before="core::Expr::EPrim { value, ty } => {", cut_tail="",
+           sig="fn mono_var(ctx: &mut Ctx, name: String, ty: Ty, s: &Subst) -> MonoExpr",
+           pre_rewrites=[(re.compile(r"\},(\s*\}\s*)$"), r"}\1", "*"),      # arm written as an expression (`=> MonoExpr::EVar { .. },`): drop the arm's comma
+                         (re.compile(r"\|\(_, (\w+)\)\| \1\.clone\(\)"), r"|(_, \1)| ty_clone(\1)", "*"),
+                         (re.compile(r"\bunify\(&template, &new_ty, &mut (\w+)\)"), r"unify_det(&template, &new_ty, &mut \1)", "*"),
+                         (re.compile(r"(\w+)\.values\(\)\.any\(has_tparam\)"), r"subst_any_tparam_v(&\1)", "*"),
+                         (re.compile(r"let mut (\w+): Subst = IndexMap::new\(\);"), r"let mut \1: Subst = IndexMap::<String, Ty>::new();", "*")],
+           rewrites=[CLONE],
+           obligation="a generic function (or generic inherent method) used as a VALUE is specialised like a callee: the use names the instance at a "
+                      "substitution under which the function's signature is exactly the use type; its bare (unspecialised) name survives only where "
+                      "unification with the use type fails or leaves a type parameter",
+           contract="ensures r matches MonoExpr::EVar { name: n, ty: t } && t == subst_res(ty, s@) && value_use_ok(old(ctx), name@, n@, t),",
+           ghost=[("@entry", "", "let ghost mut tt_g: Ty = ty; let ghost ctx0 = *ctx;"),
+                  ("?let mut value_subst: Subst = IndexMap::<String, Ty>::new();", "line-after",
+                   "proof { tt_g = template; assert(fn_sig_ty(*callee, template)); }"),
+                  ("?let spec = ctx.ensure_instance(", "line-before", "let ghost m_g = value_subst@; let ghost f_g = *callee;"),
+                  ("?return MonoExpr::EVar {", "line-before", "proof { assert(renamed_ok(&ctx0, name@, spec@, new_ty, f_g, tt_g, m_g)); }"),
+                  ("?MonoExpr::EVar { name, ty: new_ty }", "line-before",
+                   "proof { if ctx0.callee_of(name@) is Some && sig_mentions_tparam(ctx0.callee_of(name@)->0) { assert(kept_ok(ctx0.callee_of(name@)->0, new_ty, tt_g)); } }")],
+           loop_fn=lambda k, header, kw: VLOOPS(header)),
         Fn(file=M, name="mono_expr", rename="mono_call_generic", ret="r", attrs="#[verifier::loop_isolation(false)]",
-           cut_from="let generic_func_name = callee.name.clone();", sig=SIG, cut_before="core::Expr::EToDyn {", cut_tail="",
+           cut_from=re.compile(r"let generic_func_name = callee\.name\.clone\(\);(?=\s*(?://[^\n]*\s*)*let mut call_subst)"), sig=SIG, cut_before="core::Expr::EToDyn {", cut_tail="",
            obligation="a rewritten call names inst(callee, s) with sig_matches(callee, s, args, call type); args/type unchanged",
            rewrites=[CLONE,
                      (re.compile(r"(let callee_param_tys = \{ let mut __mo\d+)( = Vec::new\(\);)"), r"\1: Vec<&Ty>\2", "*"),
@@ -96,6 +123,15 @@ def ANY_INV(header):
     i, r, c = "__i" + mt.group(1), "__r" + mt.group(1), mt.group(2)
     return (f"invariant {i} <= {c}@.len(), !{r} ==> !mt_list({c}@, {i} as int),\n"
             f"  {r} ==> mt_list({c}@, {c}@.len() as int),\ndecreases {c}@.len() - {i},")
+
+
+def VLOOPS(header):
+    mt = re.search(r"while\s+__mi(\d+)\s*<\s*callee\.params\.len\(\)", header)
+    if mt:
+        i = mt.group(1)
+        return (f"invariant __mi{i} <= callee.params.len(), __mo{i}@.len() == __mi{i}, forall|j: int| 0 <= j < __mi{i} ==> #[trigger] __mo{i}@[j] == callee.params@[j].1,\n"
+                f"decreases callee.params.len() - __mi{i},")
+    return None
 
 
 def LOOPS(k, header):
